@@ -78,6 +78,8 @@ func stOf(w *wsutil.Writer) wst {
 
 var errSrc = errors.New("injected source error")
 
+var errExt = errors.New("extension refuses the frame")
+
 func werr(err error) string {
 	switch err {
 	case nil:
@@ -88,6 +90,8 @@ func werr(err error) string {
 		return "ctl_overflow"
 	case errSrc:
 		return "transport_src"
+	case errExt:
+		return "ext"
 	}
 	return vh.ErrClass(err)
 }
@@ -284,6 +288,15 @@ func runOps(r *wrunner, ops []wop) (evs []wev) {
 			var err error
 			if o.Name == "Write" {
 				n, err = r.w.Write(p)
+			} else if o.Aux == "extfail" {
+				// a send extension that refuses the frame: nothing is sent and the writer is as before
+				r.w.SetExtensions(wsutil.SendExtensionFunc(func(h ws.Header) (ws.Header, error) { return h, errExt }))
+				n, err = r.w.WriteThrough(p)
+				if r.ms != nil {
+					r.w.SetExtensions(r.ms)
+				} else {
+					r.w.SetExtensions()
+				}
 			} else {
 				n, err = r.w.WriteThrough(p)
 			}
